@@ -21,6 +21,7 @@ import GormModel.Gen.CallbackExecFacts
 namespace Gorm
 open Gen
 open CbL
+open Reent
 
 /-- the built-in registrations of one pipeline as model operations (handler id = position) -/
 def builtinOps (regs : List CbReg) : List RegOp :=
